@@ -14,7 +14,9 @@ pub fn exec_request(net: &Net, st: &StepRecord, ast: &Value) -> Value {
     let dj = |b: &[u8]| -> Value { let j = data_json(b); if j.is_null() { Value::Null } else { j["data"].clone() } };
     json!({"op": "exec", "ast": ast, "prev": dj(&st.prev), "cur": dj(&st.cur),
            "params": {"init": net.peer_ids[net.init], "me": net.peer_ids[st.peer], "ts": net.timestamp, "ttl": net.ttl},
-           "results": st.results.iter().map(|(k, v)| (k.clone(), json!({"ret_code": v.ret_code, "result": v.result}))).collect::<BTreeMap<_, _>>()})
+           "results": st.results.iter().map(|(k, v)| (k.clone(), json!({"ret_code": v.ret_code, "result": v.result}))).collect::<BTreeMap<_, _>>(),
+           // serde's error text for results that are not JSON (float/text conversion stays on the Rust side)
+           "parse_errs": st.results.values().filter_map(|v| serde_json::from_str::<Value>(&v.result).err().map(|e| (v.result.clone(), json!(e.to_string())))).collect::<BTreeMap<_, _>>()})
 }
 
 fn sorted(v: &Value) -> Vec<String> { let mut x: Vec<String> = v.as_array().map(|a| a.iter().map(|s| s.as_str().unwrap_or("").to_string()).collect()).unwrap_or_default(); x.sort(); x.dedup(); x }
@@ -26,6 +28,7 @@ pub fn compare_exec(m: &Value, net: &Net, st: &StepRecord) -> Option<String> { c
 pub fn compare_exec_projected(m: &Value, net: &Net, st: &StepRecord, fields: &[&str]) -> Option<String> {
     let o = &st.outcome;
     let on = |f: &str| fields.contains(&f);
+    if (1..=9999).contains(&o.ret_code) { return None; } // preparation-stage failure: the exec op models the execution stage only
     if on("code") && m["code"].as_i64() != Some(o.ret_code) { return Some(format!("code: model {} vs implementation {}", m["code"], o.ret_code)); }
     let uncatchable = (20000..=29999).contains(&o.ret_code);
     if uncatchable { return None; }
